@@ -14,6 +14,7 @@ import DvcData.Model.Staging
 import DvcData.Model.Fetch
 import DvcData.Model.StoreAdd
 import DvcData.Model.LinkRecord
+import DvcData.Model.CheckoutNone
 import DvcData.Model.State
 import DvcData.Model.Store
 import DvcData.Model.Checkout
@@ -429,6 +430,19 @@ def opLinkToken (j : Lean.Json) : Except String Lean.Json := do
   pure (Lean.Json.mkObj [("from_changes", toJ (LinkRecord.canon (LinkRecord.fromChanges (AList.lookup ws) updated unchanged))),
     ("walk", toJ (LinkRecord.canon ws))])
 
+/-- `checkout(path, fs, None, cache)` without force: completed or refused, and what is left, for one order of the entries -/
+def opCheckoutNone (j : Lean.Json) : Except String Lean.Json := do
+  let ws ← (← arr j "ws").toList.mapM fun e => do
+    pure (← keyOf (← e.getObjVal? "key"), ({ oid := ← str e "oid", link := .copy } : Checkout.WFile))
+  let cache ← strList j "cache"
+  let order ← (← arr j "order").toList.mapM fun e => do
+    match e with
+    | .str "ROOT" => pure Checkout.Del.root
+    | k => pure (Checkout.Del.file (← keyOf k))
+  let cfg : Checkout.Cfg := { force := false, relink := false, prompt := none, types := [.copy] }
+  let r := Checkout.checkoutNone cfg cache (boolOf j "dir_cached") ws order
+  pure (Lean.Json.mkObj [("completed", .bool r.1), ("left", Lean.Json.arr (r.2.map fun e => keyTo e.1).toArray)])
+
 def optEntryOf (j : Lean.Json) : Except String (Option MetaInfo.Entry) :=
   match j with | .null => pure none | j => do pure (some (← entryOf j))
 
@@ -834,6 +848,7 @@ def dispatch (j : Json) : Except String Json := do
   | "fetch_counts" => opFetchCounts j
   | "store_add" => opStoreAdd j
   | "link_token" => opLinkToken j
+  | "checkout_none" => opCheckoutNone j
   | "idx_checkout" => opIdxCheckout j
   | "state_history" => opStateHistory j
   | "store_history" => opStoreHistory j
